@@ -45,6 +45,10 @@ type Case struct {
 	// its ranges accumulated with AppendRanges in several calls of these many stops each (the
 	// documented continuation form; the first portion has at least two stops).
 	Portions []int `json:"portions,omitempty"`
+	// Aim (level 2): how the Renderer gets its rectangle. 0: SetRasterizer, then Reset; 1: Reset,
+	// then SetRasterizer; 2: SetRasterizer with a rectangle of another size, Reset, then
+	// SetRasterizer with the real one (a caller that learns the size late).
+	Aim int `json:"aim,omitempty"`
 	// Bases (level 2): CBASE and NBASE of the register block (nil: 10 and 10); blocks may wrap past 63.
 	Bases *[2]uint8 `json:"bases,omitempty"`
 	// Second (level 2): after the first path one register of the block is rewritten and a second
@@ -124,8 +128,18 @@ func checkGradient(c Case) error {
 		}
 		rr := &rast.Recorder{Points: pts}
 		var z render.Renderer
-		z.SetRasterizer(rr, rect)
-		z.Reset(gen.VB(vb), ivg.DefaultPalette)
+		switch c.Aim {
+		case 1:
+			z.Reset(gen.VB(vb), ivg.DefaultPalette)
+			z.SetRasterizer(rr, rect)
+		case 2:
+			z.SetRasterizer(rr, image.Rect(1, 2, 1+3*c.Rect[2]+5, 2+c.Rect[3]/2+1))
+			z.Reset(gen.VB(vb), ivg.DefaultPalette)
+			z.SetRasterizer(rr, rect)
+		default:
+			z.SetRasterizer(rr, rect)
+			z.Reset(gen.VB(vb), ivg.DefaultPalette)
+		}
 		n := len(c.Stops)
 		cb, nb := uint8(10), uint8(10)
 		if c.Bases != nil {
@@ -318,6 +332,9 @@ func genCase(t *rapid.T) (Case, []string) {
 	exact := true
 	if c.EndToEnd {
 		labels = append(labels, "end-to-end")
+		if c.Aim = rapid.SampledFrom([]int{0, 0, 1, 2}).Draw(t, "aim"); c.Aim == 2 {
+			labels = append(labels, "renderer-aimed-at-a-rectangle-of-another-size-before-Reset,at-the-real-one-after")
+		}
 		if rapid.Bool().Draw(t, "exactscale") {
 			w, h := rapid.IntRange(1, 64).Draw(t, "vw"), rapid.IntRange(1, 64).Draw(t, "vh")
 			x0, y0 := rapid.IntRange(-64, 64).Draw(t, "vx"), rapid.IntRange(-64, 64).Draw(t, "vy")
